@@ -69,7 +69,7 @@ mod crash {
         unsafe {
             for sig in [libc::SIGSEGV, libc::SIGABRT, libc::SIGBUS, libc::SIGILL, libc::SIGFPE] {
                 let mut sa: libc::sigaction = std::mem::zeroed();
-                sa.sa_sigaction = handler as usize;
+                sa.sa_sigaction = handler as *const () as usize;
                 sa.sa_flags = libc::SA_ONSTACK;
                 libc::sigemptyset(&mut sa.sa_mask);
                 libc::sigaction(sig, &sa, std::ptr::null_mut());
